@@ -7,6 +7,8 @@
 //   dkg.vss n t dealer p q g h sigma  (STRONG WEAK DEV1 DEV2){n}  =>  OUT{n}
 //       OUT = sr|sigma_i|tau_i|[A_0..A_t]|rr|sigma_rec     (`-` instead of the whole token: the party
 //             died in Share;  `-` instead of rr|sigma_rec: it died in Reconstruct)
+//   dkg.sign n t p q g h m (STRONG1 WEAK1 DEV1 STRONG2 WEAK2 DEV2){n} ORACLE => OUT{n}
+//       OUT = genret|signret|c|s, `-` (died in Generate), genret|- (died in Sign), genret|* (DEV2 is not `-`)
 //   dkg.gen n t p q g h               (STRONG WEAK DEV){n}        =>  OUT{n}
 //       OUT = 1|[QUAL]|x_i|xprime_i|[C_00..C_(n-1)t]|y|[y_i]|[z_i]|[v_i]|ck   (Generate returned true)
 //             0|[QUAL]|x_i|xprime_i|[C..]                                    (returned false)
@@ -495,9 +497,13 @@ static std::string run_case(const Case &c, double limit_s)
 				while (std::getline(is, e, ',')) if (seen.insert(e).second) { if (!orc.empty()) orc += ","; orc += e; } } }
 			if (!s) { out += " -"; prop += " P" + std::to_string(i) + ":-"; continue; }
 			std::string o = get(s, "ret") + "|";
-			if (!sg) { out += " " + o + "-"; prop += " P" + std::to_string(i) + ":" + o + "-"; continue; }
+			// a party that deviates in Sign is out of step with the others (it does not accuse itself, so it
+			// enters the reconstruction calls earlier or with another list): what IT ends with depends on
+			// timing and is no concern of the property; the trace line masks it
+			if (!c.dev2[i].honest()) { out += " " + o + "*"; }
+			if (!sg) { if (c.dev2[i].honest()) out += " " + o + "-"; prop += " P" + std::to_string(i) + ":" + o + "-"; continue; }
 			o += get(sg, "ret") + "|" + get(sg, "c") + "|" + get(sg, "s");
-			out += " " + o;
+			if (c.dev2[i].honest()) out += " " + o;
 			prop += " P" + std::to_string(i) + ":" + o + "|" + get(sg, "verify") + "|" + get(s, "QUAL") + "|" + get(s, "y");
 		}
 		std::string lines = "dkg.sign " + std::to_string(c.n) + " " + std::to_string(c.t) + " " + pqgh + " " + c.msg.str() + in + " [" + orc + "] tag:" + c.tag + " =>" + out + crash;
